@@ -144,6 +144,7 @@ pub struct HistStats {
     pub big_values: u32,
     pub hint_diffs_checked: u32,
     pub acct_checks: u32,
+    pub merges_all_eligible_by_truth: u32,
 }
 
 pub struct HistRunner<'a> {
@@ -531,7 +532,23 @@ impl<'a> HistRunner<'a> {
             self.check_all("after-merge", opi)?;
         }
         if self.checks.size {
-            self.check_sizes(opi, &scan_before, &scan_after, &reads_before, removed_nonempty.len() >= 2 && dead_in_removed > 0)?;
+            // eligibility of every non-empty file by ground truth: the documented thresholds
+            // (strictly more dead bytes, strictly higher fragmentation, strictly smaller file)
+            // applied to an independent scan of the files and the index as it was before the merge
+            let cfg = &self.hist.cfg;
+            let all_eligible_by_truth = !nonempty.is_empty()
+                && nonempty.iter().all(|id| {
+                    let (ents, _, size) = &scan_before.data[id];
+                    let live_pos: BTreeSet<u64> = before.keydir.iter().filter(|(_, f, _, _)| f == id).map(|(_, _, p, _)| *p).collect();
+                    let dead: Vec<&diskfmt::DataEntry> = ents.iter().filter(|e| !live_pos.contains(&e.pos)).collect();
+                    let dead_bytes: u64 = dead.iter().map(|e| e.len).sum();
+                    let frag = if dead.is_empty() { 0.0 } else { dead.len() as f64 / ents.len() as f64 };
+                    dead_bytes > cfg.dead_bytes || frag > cfg.frag || *size < cfg.small_file
+                });
+            if all_eligible_by_truth && cfg.small_file != u64::MAX {
+                self.stats.merges_all_eligible_by_truth += 1;
+            }
+            self.check_sizes(opi, &scan_before, &scan_after, &reads_before, all_eligible_by_truth)?;
         }
         Ok(())
     }
@@ -542,7 +559,7 @@ impl<'a> HistRunner<'a> {
         before: &DirScan,
         after: &DirScan,
         reads_before: &[Option<Vec<u8>>],
-        _nontrivial: bool,
+        all_eligible_by_truth: bool,
     ) -> Result<(), Failure> {
         let (tb, ta) = (before.total_data_size(), after.total_data_size());
         if ta > tb {
@@ -567,7 +584,7 @@ impl<'a> HistRunner<'a> {
                 ));
             }
         }
-        if self.hist.cfg.small_file == u64::MAX {
+        if self.hist.cfg.small_file == u64::MAX || all_eligible_by_truth {
             // every non-empty file was eligible: the store must now be exactly as large as a
             // fresh store holding the live pairs
             let mut live: BTreeMap<Vec<u8>, Vec<u8>> = BTreeMap::new();
